@@ -125,12 +125,15 @@ func init() {
 		// ---- the command line ----
 		gunzip := t.WBool(1, 2)
 		recursive := t.WBool(1, 3)
-		useStdin := t.WBool(1, 10)
+		useStdin := t.WBool(1, 6)
 		var args []string
 		var stdinData []byte
 		if useStdin {
 			gunzip = false // "Cannot decompress (-z) with stdin" is a usage error
 			stdinData = c06SmallCorpus(t)
+			if t.WBool(1, 2) {
+				stdinData = genCorpus(t, 40) // a longer stream: several time flushes, a batch channel that fills up
+			}
 			if t.WBool(1, 2) {
 				args = []string{"-"}
 			}
@@ -186,8 +189,9 @@ func init() {
 		}
 		// ---- faults ----
 		c06Opts := simrt.Opts{MaxSteps: 400000, IdleLimit: time.Hour}
-		if t.FBool(1, 4) {
-			// slow stages: any goroutine may lose some fake milliseconds at a yield
+		if t.FBool(1, 4) || (useStdin && t.FBool(1, 2)) {
+			// slow stages: any goroutine may lose some fake milliseconds at a yield (with a slow consumer the batch channel
+			// fills up while the stdin producer pauses and resumes)
 			c06Opts.YieldLatPermille = []int{5, 40, 200}[t.F(3)]
 			c06Opts.YieldLatMaxMs = []int{3, 40, 150}[t.F(3)]
 		}
